@@ -324,6 +324,12 @@ func genHandlers(o *hx.Out, r *hx.Rng, n int) {
 			return ownCode()
 		}
 		reqs := []chainReq{{T: "last"}}
+		// boundary of the 103 cap: requested blocks 102..105 below the tip
+		for dist := uint32(102); dist <= 105; dist++ {
+			if kept >= dist {
+				reqs = append(reqs, chainReq{T: "bfi", IDs: []uint64{uint64(g0) + uint64(kept-dist)}})
+			}
+		}
 		nq := 6 + r.Intn(6)
 		for j := 0; j < nq; j++ {
 			switch r.Intn(8) {
@@ -351,5 +357,88 @@ func genHandlers(o *hx.Out, r *hx.Rng, n int) {
 			}
 		}
 		o.Put(runChain([3]uint32{g0, length, del}, cache, reqs))
+	}
+}
+
+// ---------------------------------------------------------------------------------------- temp blocks during a failing fast sync
+//
+// The data-layer calls of fastSyncer.Sync on the failure path, on a real blockchain.Chain: delete the K original
+// blocks above the common block with saveTemp (deleteTillCommonBlock), add J downloaded blocks (processor), delete
+// them again as restoreBlocks does (originally with saveTemp = true, which overwrote the originals; repaired: false), then read
+// GetTempBlocks: restoreBlocks re-applies exactly these. Codes: original at offset i -> i, downloaded -> 100+i.
+type tempRec struct {
+	K     string   `json:"k"`
+	Orig  int      `json:"orig"`
+	Down  int      `json:"down"`
+	Save  bool     `json:"save"` // saveTemp flag of the second deletion (false in the repaired restoreBlocks)
+	Temp  []uint64 `json:"temp"`
+	Setup string   `json:"setup,omitempty"`
+}
+
+func runTemp(orig, down int, save bool) (rec tempRec) {
+	rec = tempRec{K: "temp", Orig: orig, Down: down, Save: save, Temp: []uint64{}}
+	database, err := db.NewInMemoryDB()
+	if err != nil {
+		rec.Setup = err.Error()
+		return rec
+	}
+	defer database.Close()
+	chain := blockchain.NewChain(&blockchain.ChainConfig{ChainID: []byte{0, 0, 0, 0}, MaxBlockCache: 515, KeepEventsForHeights: -1})
+	genesis := mkBlock(0, make([]byte, 32), 0)
+	chain.Init(genesis, database)
+	if err := chain.AddBlock(database.NewBatch(), genesis, nil, 0, false); err != nil {
+		rec.Setup = err.Error()
+		return rec
+	}
+	code := map[string]uint64{}
+	prev := genesis
+	for i := 1; i <= orig; i++ {
+		b := mkBlock(uint32(i), prev.Header.ID, uint32(i))
+		code[string(b.Header.ID)] = uint64(i)
+		if err := chain.AddBlock(database.NewBatch(), b, nil, 0, false); err != nil {
+			rec.Setup = err.Error()
+			return rec
+		}
+		prev = b
+	}
+	for i := 0; i < orig; i++ {
+		if err := chain.RemoveBlock(database.NewBatch(), true); err != nil {
+			rec.Setup = err.Error()
+			return rec
+		}
+	}
+	prev = genesis
+	for i := 1; i <= down; i++ {
+		b := mkBlock(uint32(i), prev.Header.ID, uint32(1000+i))
+		code[string(b.Header.ID)] = uint64(100 + i)
+		if err := chain.AddBlock(database.NewBatch(), b, nil, 0, false); err != nil {
+			rec.Setup = err.Error()
+			return rec
+		}
+		prev = b
+	}
+	for i := 0; i < down; i++ {
+		if err := chain.RemoveBlock(database.NewBatch(), save); err != nil {
+			rec.Setup = err.Error()
+			return rec
+		}
+	}
+	blocks, err := chain.DataAccess().GetTempBlocks()
+	if err != nil {
+		rec.Setup = "GetTempBlocks: " + err.Error()
+		return rec
+	}
+	blockchain.SortBlockByHeightAsc(blocks)
+	for _, b := range blocks {
+		rec.Temp = append(rec.Temp, code[string(b.Header.ID)])
+	}
+	return rec
+}
+
+func genTemp(o *hx.Out) {
+	for orig := 1; orig <= 4; orig++ {
+		for down := 0; down <= orig; down++ {
+			o.Put(runTemp(orig, down, false))
+		}
 	}
 }
